@@ -137,6 +137,7 @@ class RemapColumnsOp(BaseOp):
             np.nan, 'n/a')
         for column in self.integer_sources:
             int_mask = df1[column] != 'n/a'
+            df1[column] = df1[column].astype(object)  # a text column (it holds n/a) cannot take integers otherwise
             df1.loc[int_mask, column] = df1.loc[int_mask, column].astype(int)
         df1[self.source_columns] = df1[self.source_columns].astype(str)
         df_new, missing = self.key_map.remap(df1)
